@@ -254,15 +254,30 @@ func TestExtensionReset(t *testing.T) {
 		}
 		h1 := rapid.SliceOfN(rapid.SampledFrom(offers), 0, 3).Draw(t, "h1")
 		h2 := rapid.SliceOfN(rapid.SampledFrom(offers), 0, 3).Draw(t, "h2")
+		// The exported Parameters are the negotiator's configuration; the
+		// application may change them between upgrades (after Reset).
+		params1 := params
+		if rapid.Bool().Draw(t, "change-parameters") {
+			params1 = wsflate.Parameters{
+				ServerNoContextTakeover: rapid.Bool().Draw(t, "snct1"),
+				ClientNoContextTakeover: rapid.Bool().Draw(t, "cnct1"),
+				ServerMaxWindowBits:     rapid.SampledFrom(bits).Draw(t, "smwb1"),
+				ClientMaxWindowBits:     rapid.SampledFrom(bits).Draw(t, "cmwb1"),
+			}
+		}
 		hx.Eval()
-		e := &wsflate.Extension{Parameters: params}
+		e := &wsflate.Extension{Parameters: params1}
 		r1 := runExt(e, h1)
 		_, acceptedBefore := e.Accepted()
 		e.Reset()
+		e.Parameters = params
+		if params1 != params {
+			hx.Class("extension/parameters-changed-after-reset")
+		}
 		fresh := &wsflate.Extension{Parameters: params}
 		ra, rb := runExt(e, h2), runExt(fresh, h2)
 		if strings.Join(ra, "\n") != strings.Join(rb, "\n") {
-			t.Fatalf("Extension{%+v} after offers %q and Reset answered %q:\n%s\nnew negotiator:\n%s", params, h1, h2, strings.Join(ra, "\n"), strings.Join(rb, "\n"))
+			t.Fatalf("Extension{%+v} (before the Reset: offers %q with Parameters %+v) answered %q:\n%s\nnew negotiator:\n%s", params, h1, params1, h2, strings.Join(ra, "\n"), strings.Join(rb, "\n"))
 		}
 		hx.Class(fmt.Sprintf("extension/accepted-before-reset=%v", acceptedBefore))
 		if len(h1) > 0 && len(h2) > 0 {
@@ -295,7 +310,12 @@ type rdCfg struct {
 	OnCont  bool `json:"on_continuation"`
 	FailPos int  `json:"on_continuation_fails_at_offset"`
 	CbRead  int  `json:"on_continuation_reads"`
+	// RejectPos: a RecvExtensionFunc returns an error for the frame whose
+	// payload starts at this absolute stream offset (-1: never).
+	RejectPos int `json:"recv_extension_rejects_frame_at_offset"`
 }
+
+var errExt = errors.New("harness: receive extension rejects this frame")
 
 var errCont = errors.New("harness: OnContinuation rejects this fragment")
 
@@ -348,6 +368,14 @@ func newRd(cfg rdCfg, data []byte, base int) rdInst {
 			return nil
 		}
 	}
+	if cfg.RejectPos >= 0 {
+		r.Extensions = append(r.Extensions, wsutil.RecvExtensionFunc(func(h ws.Header) (ws.Header, error) {
+			if base+src.Pos == cfg.RejectPos {
+				return h, errExt
+			}
+			return h, nil
+		}))
+	}
 	if cfg.OnCont {
 		log := in.log
 		r.OnContinuation = func(h ws.Header, rd io.Reader) error {
@@ -393,6 +421,14 @@ func (in rdInst) consume(m rdMode) rdUnit {
 		u.Pre = fmt.Sprintf("%d/%s", n, errName(err))
 	}
 	h, err := in.r.NextFrame()
+	if err == errExt {
+		// A receive extension rejected the first frame of the unit (generated
+		// only for units that consist of that one frame). The application drops
+		// it with Discard(); the next unit starts after the frame's payload.
+		in.r.Discard()
+		u.HdrErr, u.CbErr = "extension error, Discard()", true
+		return u
+	}
 	if err != nil {
 		u.HdrErr, u.Stop = errName(err), true
 		return u
@@ -408,7 +444,7 @@ func (in rdInst) consume(m rdMode) rdUnit {
 			p := make([]byte, m.Buf)
 			n, err := in.r.Read(p)
 			u.Data = append(u.Data, p[:n]...)
-			if err == errCont {
+			if err == errCont || err == errExt {
 				// The application gives the message up. What Discard returns for
 				// it is not compared; what matters is the next message.
 				in.r.Discard()
@@ -445,6 +481,10 @@ func (in rdInst) consume(m rdMode) rdUnit {
 		u.End = "discard:" + errName(err)
 		u.Stop = err != nil
 	}
+	if u.Stop && strings.Contains(u.End, errExt.Error()) {
+		// same for a receive extension failing inside Discard()
+		hx.Class("open/extension-error-inside-discard")
+	}
 	if u.Stop && strings.Contains(u.End, errCont.Error()) {
 		// The callback failed inside Discard() itself: Discard gives up in the
 		// middle of the message and the stream position is lost. Left open.
@@ -466,7 +506,7 @@ func TestReaderConsecutiveMessages(t *testing.T) {
 			OnInterm:  rapid.Bool().Draw(t, "onintermediate"),
 			SkipCheck: rapid.IntRange(0, 4).Draw(t, "skipcheck") == 0,
 		}
-		cfg.FailPos = -1
+		cfg.FailPos, cfg.RejectPos = -1, -1
 		cfg.OnCont = rapid.Bool().Draw(t, "oncontinuation")
 		frames := gen.Conversation(t, "conv", gen.ConvOpts{Masked: !cfg.Client, MaxMsgs: 4, MaxPayload: 60})
 		if cfg.Ext {
@@ -480,10 +520,26 @@ func TestReaderConsecutiveMessages(t *testing.T) {
 		wire := ref.EncodeAll(frames)
 		events := ref.Events(frames)
 		// stream offsets: end of every frame, start of the payload of every continuation frame
-		var frameEnd, contPayloadAt []int
+		var frameEnd, contPayloadAt, rejectable []int
 		off := 0
+		frag := false
 		for _, f := range frames {
 			e := f.Encode()
+			// Frames a receive extension may reject with the reader still ending
+			// up at the next message after Discard() on the unchanged tree: a
+			// whole-unit first frame (final data frame or control frame outside a
+			// message), a non-final continuation, a control frame inside a message —
+			// with a non-empty payload. Left out: the non-final first frame
+			// (Discard stops in front of the continuations) and the final
+			// continuation (the reader stays "fragmented" and Discard eats the
+			// next message's header).
+			ctl := ref.IsControl(f.H.Op)
+			if len(f.Payload) > 0 && ((!frag && f.H.Fin) || (frag && (ctl || !f.H.Fin))) {
+				rejectable = append(rejectable, off+len(e)-len(f.Payload))
+			}
+			if !ctl {
+				frag = !f.H.Fin
+			}
 			if f.H.Op == ref.OpCont {
 				contPayloadAt = append(contPayloadAt, off+len(e)-len(f.Payload))
 			}
@@ -493,6 +549,9 @@ func TestReaderConsecutiveMessages(t *testing.T) {
 		if cfg.OnCont && len(contPayloadAt) > 0 && rapid.IntRange(0, 3).Draw(t, "oncont.fail?") > 0 {
 			cfg.FailPos = rapid.SampledFrom(contPayloadAt).Draw(t, "oncont.failat")
 			cfg.CbRead = rapid.SampledFrom([]int{0, 0, 1, -1}).Draw(t, "oncont.reads")
+		}
+		if cfg.FailPos < 0 && len(rejectable) > 0 && rapid.IntRange(0, 2).Draw(t, "ext.reject?") > 0 {
+			cfg.RejectPos = rapid.SampledFrom(rejectable).Draw(t, "ext.rejectat")
 		}
 		var unitEnd []int // true end offset of every top-level unit
 		for _, e := range events {
@@ -530,7 +589,11 @@ func TestReaderConsecutiveMessages(t *testing.T) {
 			if u.CbErr {
 				// the next message starts where this one ends on the wire
 				pos = append(pos, unitEnd[i])
-				hx.Class("reader/oncontinuation-error-then-discard")
+				if cfg.RejectPos >= 0 {
+					hx.Class("reader/extension-error-then-discard")
+				} else {
+					hx.Class("reader/oncontinuation-error-then-discard")
+				}
 			} else {
 				pos = append(pos, a.src.Pos)
 			}
